@@ -371,6 +371,7 @@ def build_evidence(prop, tier, seed, mod, reports, logical, n_inst, n_inst_ok, n
                                                        {s for s, _ in rep.covered} for side in (True, False)
                                                        if (s, side) not in rep.covered),
                       "dropped_log_calls": rep.dropped_calls, "native_pure_calls": rep.native_calls,
+                      "assumed_contracts_exercised": dict(sorted(rep.extern_calls.items())),
                       "lock_scopes": sorted(set(d0 for d0, _ in rep.lock_scopes)),
                       "cross_checked_paths": rep.cross_checked, "wall_s": round(rep.wall, 2)})
             d["chunks"] = rep.chunks
